@@ -682,6 +682,11 @@ func (g *G) metadata() {
 	for _, f := range g.M.Funcs {
 		if f.Blocks != nil && g.chance("fatt", 1, 4) {
 			f.MD = append(f.MD, att())
+			// global objects (unlike instructions) may carry several attachments of one kind: `!type !1, !type !2`
+			for k := g.rng("fattmore", 0, 2); k > 0; k-- {
+				f.MD = append(f.MD, att())
+				g.feat("attachment/several-on-function")
+			}
 		}
 		for _, b := range f.Blocks {
 			for _, in := range append(append([]*am.Inst{}, b.Insts...), b.Term) {
@@ -703,6 +708,10 @@ func (g *G) metadata() {
 	for _, gl := range g.M.Globals {
 		if g.chance("gatt", 1, 5) {
 			gl.MD = append(gl.MD, att())
+			for k := g.rng("gattmore", 0, 2); k > 0; k-- {
+				gl.MD = append(gl.MD, att())
+				g.feat("attachment/several-on-global")
+			}
 		}
 	}
 	g.feat("top/metadata")
